@@ -50,8 +50,9 @@ TRUSTED = ['the classification harness tools/props/c28_run.py (exception -> diag
 ASSUMPTIONS = ['CompilerError (and TaskError raised from one) is the diagnostic channel; NotImplementedError is not',
                'a program that exceeds the per-program time limit is not a violation (machine is shared)']
 
-CORPUS = os.path.join(os.path.dirname(os.path.abspath(__file__)), 'c28_corpus.json')
-EXPECT = os.path.join(os.path.dirname(os.path.abspath(__file__)), 'c28_expect.json')
+# C28_CORPUS / C28_EXPECT: alternative files (used to try a patched tree without touching the committed state)
+CORPUS = os.environ.get('C28_CORPUS') or os.path.join(os.path.dirname(os.path.abspath(__file__)), 'c28_corpus.json')
+EXPECT = os.environ.get('C28_EXPECT') or os.path.join(os.path.dirname(os.path.abspath(__file__)), 'c28_expect.json')
 DETERMINISTIC = ('c-template', 'c-constctx', 'c3-template', 'c-boundary')   # program text does not depend on the seed
 
 
